@@ -156,6 +156,7 @@ class C01(Check):
         for s in hist.sessions:
             if s.failed and aborted is None:
                 aborted = 'session-' + s.failed
+        hist.attach_transcripts()
         sig = hashlib.sha1(repr(hist.order).encode()).hexdigest()[:16]
         active = len({c for c, _ in hist.order})
         return {'violations': hist.violations, 'counters': counters,
